@@ -23,7 +23,7 @@ VARIANTS = {
     "plain":   ("gcc",   ["-O1", "-g", "-D__PTHREAD", "-DAdd_"], False),
     "verif":   ("gcc",   ["-O1", "-g", "-D__PTHREAD", "-DAdd_", "-DSLU_MT_VERIF"], True),
     "asan":    ("clang", ["-O1", "-g", "-D__PTHREAD", "-DAdd_", "-DSLU_MT_VERIF",
-                          "-fsanitize=address,undefined", "-fno-omit-frame-pointer",
+                          "-fsanitize=address,undefined", "-fno-sanitize=signed-integer-overflow", "-fno-omit-frame-pointer",
                           "-fno-sanitize-recover=undefined"], True),
     "tsan":    ("clang", ["-O1", "-g", "-D__PTHREAD", "-DAdd_", "-DSLU_MT_VERIF",
                           "-fsanitize=thread"], True),
